@@ -123,18 +123,18 @@ SCRIPTS = {
 QUICK_ALL_COMBOS = ("login", "login_pwd", "retr_noconn", "retr_hold", "stor", "ctrl_not_reading")
 
 
-def check_scripts():
-    for name, sc in SCRIPTS.items():
-        t, last = F(0), None
-        for gap, (kind, _) in sc:
-            t += gap
-            if kind in ("cmd", "flood"):
-                if last is not None and (t - last) in (2, 5, 30):
-                    raise AssertionError(f"script {name}: command gap {t - last} coincides with a timeout value")
-                last = t
+def check_script(name, sc, extra=()):
+    t, last = F(0), None
+    for gap, (kind, _) in sc:
+        t += gap
+        if kind in ("cmd", "flood"):
+            if last is not None and (t - last) in (2, 5, 30) + tuple(extra):
+                raise AssertionError(f"script {name}: command gap {t - last} coincides with a timeout value")
+            last = t
 
 
-check_scripts()
+for _n, _sc in SCRIPTS.items():
+    check_script(_n, _sc, extra=(F(3, 4),))
 
 
 def xfer_dir(line):
@@ -179,6 +179,65 @@ class Peer:
         return None
 
 
+def pyval(v):
+    """what is handed to aioftp.Server: ints stay ints, other rationals become (exact, dyadic) floats"""
+    if v is None or isinstance(v, int):
+        return v
+    assert F(float(v)) == F(v), v
+    return float(v)
+
+
+def ser_script(sc):
+    return [[str(F(g)), kind, arg] for g, (kind, arg) in sc]
+
+
+def deser_script(l):
+    return [(F(g), (kind, arg)) for g, kind, arg in l]
+
+
+def random_script(rng):
+    """thorough tier: a random session from the same step vocabulary (one PASV/EPSV listener; at most one transfer in
+    flight; consecutive command gaps never equal to a timeout value; data steps on half-integers)"""
+    while True:
+        sc = [(1, USER), (rng.choice([1, 3]), rng.choice([PASV, EPSV]))]
+        open_end = False
+        for b in range(rng.randint(1, 3)):
+            if open_end or rng.random() < 0.35:
+                sc.append((rng.choice([1, 3, 4, F(13, 2)]), PWD))
+                continue
+            kind = rng.choice(["retr", "retr_hold", "retr_partial", "stor", "list", "mlsd"])
+            conn = rng.choice(["before", "before", "soon", "late", "never"])
+            cmd = {"retr": RETR, "retr_hold": RETR, "retr_partial": RETR, "stor": STOR, "list": LIST, "mlsd": MLSD}[kind]
+            dc = {"retr_hold": DCONN_HOLD, "retr_partial": DCONN_HOLD_NR}.get(kind, DCONN)
+            if conn == "before":
+                sc += [(H, dc), (H, cmd)]
+            elif conn == "soon":
+                sc += [(1, cmd), (H, dc)]
+            elif conn == "late":
+                sc += [(1, cmd), (F(7, 2), dc)]
+            else:
+                sc += [(1, cmd)]
+            done = conn == "before" and kind in ("retr", "list", "mlsd")
+            if conn != "never":
+                if kind == "stor":
+                    sc.append((H, DSEND))
+                    for _ in range(rng.randint(0, 2)):
+                        sc.append((rng.choice([1, F(5, 2)]), DSEND))
+                    if rng.random() < 0.5:
+                        sc.append((1, DEOF))
+                elif kind == "retr_hold" and rng.random() < 0.5:
+                    sc.append((F(3, 2), RELEASE))
+                elif kind == "retr_partial":
+                    sc.append((F(3, 2), RELEASE))
+            if not done:
+                open_end = True  # whether this transfer is over depends on the configuration: only PWDs may follow
+        try:
+            check_script("random", sc, extra=(F(3, 4),))
+        except AssertionError:
+            continue
+        return sc
+
+
 def run_case(script, k, cfg, throttle=None, horizon=HORIZON):
     """the peer performs script[:k] and then stalls; returns the observations (Fractions of virtual seconds)"""
     idle, sock, wf = cfg
@@ -193,9 +252,9 @@ def run_case(script, k, cfg, throttle=None, horizon=HORIZON):
         srv = aioftp.Server(
             [aioftp.User(base_path="/", home_path="/")],
             path_io_factory=aioftp.MemoryPathIO,
-            idle_timeout=idle,
-            socket_timeout=sock,
-            wait_future_timeout=wf,
+            idle_timeout=pyval(idle),
+            socket_timeout=pyval(sock),
+            wait_future_timeout=pyval(wf),
             **kw,
         )
         await srv.start("127.0.0.1", 2121)
@@ -301,8 +360,10 @@ def run_case(script, k, cfg, throttle=None, horizon=HORIZON):
             obs["t_stall"] = t_stall
             obs["events"] = events
             obs["replies"] = [(t, l) for t, l in peer.log if l is not None]
-            # a peer that is not reading its control channel cannot see the EOF: take the server-side close instant
-            obs["eof"] = closed_at.get(ctrl_st) if ctrl_st.out.hold else peer.eof
+            # the release instant is the server-side close of the control transport; a peer that reads its control
+            # channel sees the EOF at that very instant (checked in compare), one that does not read cannot
+            obs["eof"] = closed_at.get(ctrl_st)
+            obs["peer_eof"] = peer.eof
             obs["r425"] = [t for t, l in peer.log if l and l.startswith("425")]
             obs["ctrl_closed"] = closed_at.get(ctrl_st)
             obs["data_closed"] = [closed_at.get(st) for _, st in data]
@@ -362,6 +423,7 @@ def model_events(obs, throttled=False):
     held = False
     noread = False
     have_data = False
+    pending_dir = 0
     for kind, t, arg in obs["events"]:
         if kind == "cmd":
             d = F(0)
@@ -371,6 +433,8 @@ def model_events(obs, throttled=False):
                 d = armed[ncmd + 1] - tt
             ncmd += 1
             k = xfer_dir(arg)
+            if k:
+                pending_dir = k
             evs.append([0, q(tt), q(d), k])
             if k == 2 and have_data and not held:
                 evs.append([3, q(tt), q(0), 0])
@@ -379,8 +443,8 @@ def model_events(obs, throttled=False):
             noread = arg == "noread"
             have_data = True
             evs.append([1, q(t), q(0), 0])
-            if not held:
-                evs.append([3, q(t), q(0), 0])  # completes at once if a Down transfer was waiting (ignored otherwise)
+            if not held and pending_dir == 2:
+                evs.append([3, q(t), q(0), 0])  # a waiting Down transfer completes at once (no-op if none is waiting)
         elif kind == "release":
             held = False
             # a peer that drains completes the transfer at once; one that reads only a buffer-full makes progress and stalls again
@@ -532,7 +596,10 @@ def oracle(obs, cfg, eps=F(0)):
 
 # ------------------------------------------------------------------ correspondence
 def combos(rng, name, thorough):
-    allc = list(itertools.product(VALUES, VALUES, VALUES))
+    vals = VALUES + [F(3, 4)] if thorough else VALUES
+    allc = list(itertools.product(vals, vals, vals))
+    if name == "random":
+        return rng.sample(allc, 14)
     if thorough or name in QUICK_ALL_COMBOS:
         return allc
     # every value of every timeout at least once + a random sample
@@ -545,37 +612,39 @@ def combos(rng, name, thorough):
     return out
 
 
-def compare(ctx, name, k, cfg, obs, pred, throttled=False):
+def compare(ctx, name, k, cfg, obs, pred, throttled=False, steps=()):
     """exact comparison of the model's prediction with the observation"""
     E = obs["eof"]
     pe = pred["ended"][0] if pred["ended"] else None
     o425 = [x for x in obs["r425"] if x != E]
     m425 = [x for x in pred["r425"] if x != pe]
-    if pe != E or o425 != m425 or (E is not None and obs["ctrl_closed"] != E):
+    blind = any(kind == "chold" for kind, _, _ in obs["events"])
+    if pe != E or o425 != m425 or (not blind and obs["peer_eof"] != E):
         ctx.disagree(
             "session-timing",
-            {"script": name, "k": k, "cfg": [str(x) for x in cfg], "throttled": throttled},
+            {"script": name, "k": k, "cfg": [str(x) for x in cfg], "throttled": throttled, "steps": ser_script(steps)},
             {"ended": str(pe), "cause": pred["ended"][1] if pred["ended"] else None, "r425": [str(x) for x in m425]},
-            {"eof": str(E), "ctrl_closed": str(obs["ctrl_closed"]), "r425": [str(x) for x in o425]},
+            {"closed": str(E), "peer_eof": str(obs["peer_eof"]), "r425": [str(x) for x in o425]},
         )
         return False
     return True
 
 
 def run_matrix(ctx, cases, throttle=None, eps_of=None, stream="matrix"):
-    """cases: list of (script name, k, cfg)"""
+    """cases: list of (script name, k, cfg) or (script name, k, cfg, steps)"""
     obs_all = []
     model_in = []
-    for name, k, cfg in cases:
-        obs = run_case(SCRIPTS[name], k, cfg, throttle=throttle)
+    cases = [c if len(c) == 4 else (c[0], c[1], c[2], SCRIPTS[c[0]]) for c in cases]
+    for name, k, cfg, steps in cases:
+        obs = run_case(steps, k, cfg, throttle=throttle)
         ctx.traces_impl += 1
         obs_all.append(obs)
         model_in.append((0, [[oq(cfg[0]), oq(cfg[1]), oq(cfg[2])], q(obs["t0"]), model_events(obs, throttled=bool(throttle))]))
     out = ctx.model(model_in)
     xs = []
-    for (name, k, cfg), obs, mi, mo in zip(cases, obs_all, model_in, out):
+    for (name, k, cfg, steps), obs, mi, mo in zip(cases, obs_all, model_in, out):
         pred = dec_state(mo)
-        ctx.case((stream, name, k, cfg))
+        ctx.case((stream, name, k, cfg, str(steps) if name == "random" else ""))
         ctx.count(f"script:{name}")
         ctx.count("outcome:" + ("never-released" if obs["eof"] is None else "released"))
         if obs["r425"]:
@@ -585,10 +654,11 @@ def run_matrix(ctx, cases, throttle=None, eps_of=None, stream="matrix"):
         if throttle and any(kind == "dsend" for kind, _, _ in obs["events"]):
             ctx.count("throttled_oracle_only")  # throttle sleeps before data-stream reads are not modelled
         else:
-            compare(ctx, name, k, cfg, obs, pred, throttled=bool(throttle))
+            compare(ctx, name, k, cfg, obs, pred, throttled=bool(throttle), steps=steps)
         eps = eps_of(obs) if eps_of else F(0)
         for key, msg in oracle(obs, cfg, eps):
-            ctx.violation(msg, {"key": key, "script": name, "k": k, "cfg": list(cfg), "throttle": throttle, "what": msg})
+            ctx.violation(msg, {"key": key, "script": name, "k": k, "cfg": [None if c is None else str(c) for c in cfg],
+                                "throttle": throttle, "steps": ser_script(steps), "what": msg})
         if len(xs) < 12 and k >= 3:
             xs.append((0, mi[1], mo))
         if (obs["r425"] or (pred["ended"] and pred["ended"][1] == 1) or throttle) and k >= 4 and (len(ctx.samples) < 2 or cfg[0] in (5, 30)):
@@ -694,6 +764,13 @@ def correspondence(ctx, thorough=None):
                 if k == 0 and name != "login":
                     continue  # the empty prefix is the same session for every script
                 cases.append((name, k, cfg))
+    if thorough:
+        for _ in range(160):
+            sc = random_script(rng)
+            for cfg in combos(rng, "random", True):
+                for k in range(3, len(sc) + 1):
+                    cases.append(("random", k, cfg, sc))
+        ctx.count("random_scripts", 160)
     ctx.count("matrix_cases", len(cases))
     xs += run_matrix(ctx, cases)
     # one throttled configuration: the read-throttle wait delays the arming of the idle timer
@@ -744,9 +821,16 @@ def replay(ctx, data):
     if "script" not in r:
         print("replay payload:", data)
         return False
-    cfg = tuple(None if x is None else (F(x) if not isinstance(x, (int, float)) else x) for x in r["cfg"])
+    def val(x):
+        if x is None:
+            return None
+        x = F(x)
+        return int(x) if x.denominator == 1 else x
+
+    cfg = tuple(val(x) for x in r["cfg"])
     thr = r.get("throttle")
-    obs = run_case(SCRIPTS[r["script"]], r["k"], cfg, throttle=thr)
+    steps = deser_script(r["steps"]) if "steps" in r else SCRIPTS[r["script"]]
+    obs = run_case(steps, r["k"], cfg, throttle=thr)
     print("events:", [(k, str(t), a) for k, t, a in obs["events"]])
     print("replies:", [(str(t), l) for t, l in obs["replies"]])
     print("eof:", obs["eof"], "data_closed:", obs["data_closed"], "ledger:", obs["ledger"])
